@@ -205,6 +205,7 @@ type vh11Spec struct {
 	flen  int
 	tape  []vh11Ans
 	heavy bool
+	grant uint32 // the server announces this msize instead of the requested one
 }
 
 func vh11PatternAC(a, c byte, n int) []byte {
@@ -225,7 +226,7 @@ func vh11Run(t *testing.T, o *vhOut, id int, r *rand.Rand, s vh11Spec, big bool)
 	content := vh11PatternAC(fa, fc, s.flen)
 	f := vh11NewFile(s.base, content)
 	f.tape = append([]vh11Ans(nil), s.tape...)
-	pr, err := vhclPair(vhclAttacher{func() (File, error) { return f, nil }}, s.msize, -1)
+	pr, err := vhclPairGrant(vhclAttacher{func() (File, error) { return f, nil }}, s.msize, s.grant, -1)
 	if err != nil {
 		t.Fatalf("C11 pair msize=%d: %v", s.msize, err)
 	}
@@ -247,6 +248,7 @@ func vh11Run(t *testing.T, o *vhOut, id int, r *rand.Rand, s vh11Spec, big bool)
 	}
 	ce := vhclClassify(err)
 	cs := pr.c.payloadSize
+	o.Emit(map[string]interface{}{"kind": "payload", "id": id, "req": s.msize, "grant": s.grant, "msize": pr.c.messageSize, "cs": cs})
 	kind := "read"
 	if s.write {
 		kind = "write"
@@ -289,7 +291,7 @@ func vh11Run(t *testing.T, o *vhOut, id int, r *rand.Rand, s vh11Spec, big bool)
 				}
 			}
 		}
-		if s.lenp <= 30000 || (s.heavy && s.lenp <= 140000) {
+		if s.lenp <= 30000 { // (longer list literals overflow coqc's stack)
 			// content compared in Coq: buffers and file given by their generator parameters
 			stored := 0
 			if len(f.calls) > 0 && f.calls[len(f.calls)-1].Err.K != "nil" {
@@ -462,6 +464,20 @@ func TestVerifC11(t *testing.T) {
 			}
 		}
 	}
+	// (b2) the server announces a smaller msize than the client asked for: the chunks follow the announced one
+	for _, g := range [][2]uint32{{65536, 160}, {8192, 666}, {65536, 2201}, {65536, 65030}, {1 << 20, 65536 + 153}} {
+		cs := vh11Payload(g[1])
+		for _, write := range []bool{true, false} {
+			for _, lenp := range []int{cs + 1, 2*cs + 1} {
+				if lenp > 70000 && !write {
+					continue
+				}
+				s := vh11Spec{msize: g[0], grant: g[1], write: write, lenp: lenp, flen: lenp + 3, off: 1}
+				vh11Run(t, o, id, r, s, cs > 1024)
+				id++
+			}
+		}
+	}
 	// (c) end to end, larger msize up to 1 MiB and more: length level + content checked here
 	bigs := []uint32{2201, 4096, 8192, 65536, 1 << 20}
 	if vhThorough() {
@@ -473,6 +489,9 @@ func TestVerifC11(t *testing.T) {
 			for _, d := range []int{-1, 0, 1} {
 				// unary numbers in the Coq evaluation: keep the MiB-sized runs few in the quick tier
 				if msize >= 1<<20 && !vhThorough() && !(k == 2 && d == 1) && !(k == 1 && d == 0) {
+					continue
+				}
+				if msize >= 4096 && msize < 1<<20 && k == 3 && d != 1 && !vhThorough() {
 					continue
 				}
 				for _, write := range []bool{true, false} {
